@@ -93,7 +93,8 @@ Fixpoint has_byte (v : tval) : bool :=
 
 (* verdict of one write: ok, or one of the known deviations, or bad *)
 Definition judge_write (code : Z) (v : tval) (t : Z) (int8_in nocast : bool) (err : Z) (bs : list Z) : verdict :=
-  if (err =? 0) && match decode_all t bs with Some v1 => tval_eqb (canon v1) (canon v) | None => false end then VOk
+  if (err =? 0) && (match decode_all t bs with Some v1 => tval_eqb (canon v1) (canon v) | None => false end
+                    || matches_unordered false v bs) then VOk
   else if int8_in && nocast && has_byte v && (err =? 1) then VKnown 1923
   else if has_bad_map v && (err =? 0) && matches_unordered true v bs then VKnown 1921
   else VBad code [FB (encode (canon v))].
